@@ -181,6 +181,7 @@ class SDict:
     def copy(self):
         d = SDict(self.base_has, self.base_get, self.label)
         d.writes = list(self.writes)
+        d.vty = getattr(self, 'vty', None)
         return d
 
 
@@ -304,6 +305,36 @@ class SArrRow:
         self.i = i
 
 
+class FMap:
+    """a heap field modelled as an explicit map  identity -> value  (Burstall):
+    base = uninterpreted function of the identity, plus a store chain.  Used for
+    fields that a loop writes on the *elements* of an unbounded sequence."""
+
+    def __init__(self, eng, cls, field, ty, name=None):
+        self.eng = eng
+        self.cls = cls
+        self.field = field
+        self.ty = ty
+        self.name = name or ('%s.%s' % (cls, field))
+        self.writes = []
+        self.stamp = 0          # pre-existing by definition
+
+    def copy(self):
+        m = FMap(self.eng, self.cls, self.field, self.ty, self.name)
+        m.writes = list(self.writes)
+        return m
+
+    def read(self, ident):
+        v = self.eng.make_typed(self.ty, self.name, [ident])
+        for wid, wv in self.writes:
+            v = self.eng.ite_value(SV(ident == wid, 'bool'), wv, v)
+        return v
+
+    def rebase(self, name):
+        m = FMap(self.eng, self.cls, self.field, self.ty, name)
+        return m
+
+
 class LoopSpec:
     """Fold specification of a loop over a symbolic sequence (a cut point).
 
@@ -326,7 +357,11 @@ class LoopSpec:
     """
 
     def __init__(self, carried, step, name, key=(), result=None, exits=(), assume=None,
-                 check=None):
+                 check=None, inv=None):
+        # inv(eng, i, values) -> bool-like: an extra inductive invariant over the carried
+        # values after i iterations: proved for i = 0 on entry, assumed for the generic i,
+        # proved for i + 1 after the body, assumed for i = len after the loop
+        self.inv = inv
         self.check = check
         self.carried = carried
         self.step = step
@@ -387,6 +422,7 @@ class Engine:
             self.frames = []
             self._fresh_ids = set()
             self.trace = []
+            self.fmaps = {}
             reset_names()
             from . import builtins as _B
             _B.const_axioms(self)
@@ -406,7 +442,7 @@ class Engine:
 
     def feasible(self, extra):
         s = z3.Solver()
-        s.set('timeout', 3000)
+        s.set('timeout', 1500)
         for p in self.pc:
             s.add(p)
         s.add(extra)
@@ -616,9 +652,11 @@ class Engine:
         if ty.startswith('dict:'):
             vty = ty[5:]
             f = self.uf(name + '.has', *(sorts + [Z, z3.BoolSort()]))
-            return SDict(lambda k, f=f, args=args: f(*(list(args) + [k])),
-                         lambda k, vty=vty, name=name, args=args:
-                         self.make_typed(vty, name + '.get', list(args) + [k]), name)
+            d = SDict(lambda k, f=f, args=args: f(*(list(args) + [k])),
+                      lambda k, vty=vty, name=name, args=args:
+                      self.make_typed(vty, name + '.get', list(args) + [k]), name)
+            d.vty = vty
+            return d
         if ty == 'str':
             return AStr([('str', SV(self.uf(name, *(sorts + [Z]))(*args), 'int'))])
         raise EngineError('unknown schema type %r' % ty)
@@ -638,7 +676,24 @@ class Engine:
         g = mk(name, srt)
         return SArr(lambda idx, g=g, kind=kind: SV(g(idx), kind), rank, kind, name)
 
+    def use_field_map(self, cls, field, ty=None):
+        ty = ty or self.field_type(cls, field)
+        fm = FMap(self, cls, field, ty)
+        self.fmaps[(cls, field)] = fm
+        return fm
+
+    def fmap_of(self, cls, field):
+        if not self.fmaps:
+            return None
+        for c in self.repo.mro(cls) or [cls]:
+            if (c, field) in self.fmaps:
+                return (c, field)
+        return None
+
     def getfield(self, obj, field, node=None):
+        fk = self.fmap_of(obj.cls, field)
+        if fk is not None:
+            return self.fmaps[fk].read(obj.ident)
         if field in obj.fields:
             return obj.fields[field]
         ty = self.field_type(obj.cls, field)
@@ -656,6 +711,11 @@ class Engine:
         return cls
 
     def setfield(self, obj, field, value):
+        fk = self.fmap_of(obj.cls, field)
+        if fk is not None:
+            self.note_write(('fmap', self.fmaps[fk]))
+            self.fmaps[fk].writes.append((obj.ident, value))
+            return
         self.note_write(('attr', obj, field))
         obj.fields[field] = value
 
@@ -706,7 +766,17 @@ class Engine:
         if isinstance(v, SSet):
             if v.base is None:
                 return len(v.adds) > 0
-            raise EngineError('truth of symbolic set')
+            if v.adds:
+                return True
+            # non-emptiness of a symbolic set: fork, with a witness / a universal fact
+            b = fresh_bool('nonempty')
+            if self.decide(b):
+                w = z3.Int(fresh_name('witness'))
+                self.pc.append(self.set_has(v, w))
+                return True
+            t = z3.Int(fresh_name('t'))
+            self.pc.append(z3.ForAll([t], z3.Not(self.set_has(v, t))))
+            return False
         if isinstance(v, (FuncRef, BoundMethod, Builtin, ClassRef, Closure)):
             return True
         if isinstance(v, NDArr):
@@ -1038,10 +1108,10 @@ class Engine:
         if isinstance(init_v, SList):
             ln = SV(self.uf(name + '.len', *(sorts + [Z]))(*args), 'int')
             self.assume(r_cmp('>=', ln, 0))
-            tag = '%s@%s' % (name, ','.join(str(a) for a in args))
+            tag = '%s@%s' % (name, ','.join(str(z3.simplify(a)).replace('\n', '').replace(' ', '') for a in args))
             return SList(init_v.copy().chunks + [('opaque', tag, ln)])
         if isinstance(init_v, SArr):
-            a = self.sym_array('%s@%s' % (name, ','.join(str(a) for a in args)),
+            a = self.sym_array('%s@%s' % (name, ','.join(str(z3.simplify(a)).replace('\n', '').replace(' ', '') for a in args)),
                                init_v.rank, init_v.kind, init_v.length)
             return a
         if isinstance(init_v, Opt) or init_v is None:
@@ -1050,6 +1120,19 @@ class Engine:
         if isinstance(init_v, SSet):
             f = self.uf(name + '.has', *(sorts + [Z, z3.BoolSort()]))
             return SSet(lambda k, f=f, args=args: f(*(args + [k])), name)
+        if isinstance(init_v, FMap):
+            return FMap(self, init_v.cls, init_v.field, init_v.ty,
+                        '%s@%s' % (name, ','.join(str(z3.simplify(a)).replace('\n', '').replace(' ', '') for a in args)))
+        if isinstance(init_v, SDict):
+            tag = '%s@%s' % (name, ','.join(str(z3.simplify(a)).replace('\n', '').replace(' ', '') for a in args))
+            vty = getattr(init_v, 'vty', None)
+            if vty is None:
+                raise EngineError('prefix value of a dict without value type (%s)' % name)
+            f = self.uf(tag + '.has', Z, z3.BoolSort())
+            d = SDict(lambda k, f=f: f(k),
+                      lambda k, vty=vty, tag=tag: self.make_typed(vty, tag + '.get', [k]), tag)
+            d.vty = vty
+            return d
         raise EngineError('cannot build a prefix value for %r (%s)' % (init_v, name))
 
     def symbolic_for(self, st, env, it):
@@ -1063,6 +1146,12 @@ class Engine:
         seq = self.as_seq(it)
         name = spec.name
         init = {loc: self.read_loc(loc, env) for loc in spec.carried}
+        if getattr(spec, 'on_entry', None) is not None:
+            spec.on_entry(self, init)
+        skey = spec.key_fn(self, env) if getattr(spec, 'key_fn', None) is not None else spec.key
+        if spec.inv is not None and self.choose(2) == 1:
+            self.oblige('%s/invariant-holds-on-entry' % name, spec.inv(self, 0, init))
+            raise PathEnd()
         if self.choose(2) == 0:
             # ---- the generic iteration: invariant preservation
             i = fresh_int('it')
@@ -1074,13 +1163,15 @@ class Engine:
                     v = self.snapshot(init[loc])
                 else:
                     v = self.prefix_value(init[loc], '%s.%s' % (name, self.loc_name(loc)),
-                                          spec.key, i)
+                                          skey, i)
                 before[loc] = v
                 self.write_loc(loc, v, env)
             elem = seq.at(i)
             if spec.assume is not None:
                 self.assume(spec.assume(self, i, elem))
             snap = {loc: self.snapshot(v) for loc, v in before.items()}
+            if spec.inv is not None:
+                self.assume(spec.inv(self, i, snap))
             self.assign(st.target, elem, env)
             frame = self.frames[-1]
             saved_writes = frame.get('writes')
@@ -1106,9 +1197,14 @@ class Engine:
                 raise EngineError('abrupt loop exit (%s) not covered by the LoopSpec of %s'
                                   % (outcome, name))
             self.check_loop_frame(frame['writes'], spec, st, env, name, stamp0, before)
+            if spec.inv is not None:
+                got = {loc: self.read_loc(loc, env) for loc in spec.carried}
+                self.oblige('%s/invariant-preserved' % name, spec.inv(self, r_add(i, 1), got))
             if spec.check is not None:
                 got = {loc: self.read_loc(loc, env) for loc in spec.carried}
                 spec.check(self, snap, elem, i, got)
+                raise PathEnd()
+            if spec.step is None:
                 raise PathEnd()
             alts = spec.step(self, snap, elem, i)
             if isinstance(alts, dict):
@@ -1136,9 +1232,11 @@ class Engine:
                     res[loc] = init[loc]
                 else:
                     res[loc] = self.prefix_value(init[loc], '%s.%s' % (name, self.loc_name(loc)),
-                                                 spec.key, seq.length)
+                                                 skey, seq.length)
         for loc in spec.carried:
             self.write_loc(loc, res[loc], env)
+        if spec.inv is not None:
+            self.assume(spec.inv(self, seq.length, res))
         # temporaries assigned in the body are unknown after the loop
         for n in ast.walk(ast.Module(body=st.body, type_ignores=[])):
             if isinstance(n, ast.Name) and isinstance(n.ctx, ast.Store):
@@ -1166,6 +1264,9 @@ class Engine:
             elif w[0] == 'yield':
                 if ('yield',) in spec.carried:
                     continue
+            elif w[0] == 'fmap':
+                if any(v is w[1] for v in carried_vals):
+                    continue
             elif w[0] == 'attr':
                 if w[1].stamp > stamp0:
                     continue
@@ -1181,6 +1282,8 @@ class Engine:
             return loc[1]
         if loc[0] == 'attr':
             return '%s.%s' % (loc[1].label, loc[2])
+        if loc[0] == 'fmap':
+            return 'heap[%s.%s]' % (loc[1], loc[2])
         return str(loc[0])
 
     def read_loc(self, loc, env):
@@ -1190,6 +1293,8 @@ class Engine:
             return self.getfield(loc[1], loc[2])
         if loc[0] == 'yield':
             return self.yield_stack[-1]
+        if loc[0] == 'fmap':
+            return self.fmaps[(loc[1], loc[2])]
         raise EngineError('location %r' % (loc,))
 
     def write_loc(self, loc, v, env):
@@ -1199,11 +1304,13 @@ class Engine:
             loc[1].fields[loc[2]] = v
         elif loc[0] == 'yield':
             self.yield_stack[-1] = v
+        elif loc[0] == 'fmap':
+            self.fmaps[(loc[1], loc[2])] = v
         else:
             raise EngineError('location %r' % (loc,))
 
     def snapshot(self, v):
-        if isinstance(v, (SList, SArr, SSet, SDict)):
+        if isinstance(v, (SList, SArr, SSet, SDict, FMap)):
             return v.copy()
         return v
 
@@ -1276,6 +1383,9 @@ class Engine:
         if isinstance(a, SArr) and isinstance(b, SArr):
             idx = tuple(fresh_int('k') for _ in range(a.rank))
             return self.values_equal(a.read(idx), b.read(idx))
+        if isinstance(a, FMap) and isinstance(b, FMap):
+            k = z3.Int(fresh_name('k'))
+            return self.values_equal(a.read(k), b.read(k))
         if isinstance(a, SSet) and isinstance(b, SSet):
             k = z3.Int(fresh_name('k'))
             return SV(self.set_has(a, k) == self.set_has(b, k), 'bool')
@@ -1359,6 +1469,8 @@ class Engine:
         return ite(c, a, b)
 
     def key_term(self, k):
+        if isinstance(k, Opt):
+            k = self.unopt(k)
         if isinstance(k, SObj):
             return k.ident
         if isinstance(k, OptObj):
@@ -1805,6 +1917,8 @@ class Engine:
                 raise PyRaise('AttributeError', ("'NoneType' object has no attribute %s" % name,))
             obj = obj.obj
         if isinstance(obj, SObj):
+            if self.fmap_of(obj.cls, name) is not None:
+                return self.getfield(obj, name)
             if name in obj.fields:
                 return obj.fields[name]
             if obj.cls in self.repo.classes:
